@@ -68,6 +68,15 @@ def gen_atom(r, snap):
         if "'" in lit and '"' in lit:
             lit = lit.replace('"', "")
         return ("text", col, op, lit, "%s %s %s" % (col, op, q(lit)))
+    if k == 7 and r.chance(1, 2):
+        # date column against a literal naming the entry's own second / minute / hour / day (or a neighbour)
+        import time as _t
+        t = n["mtime"] + r.choice([-1, 0, 0, 0, 1])
+        tm = _t.gmtime(t)
+        lit = r.choice([_t.strftime("%Y-%m-%d %H:%M:%S", tm), _t.strftime("%Y-%m-%d %H:%M", tm), _t.strftime("%Y-%m-%d %H", tm),
+                        _t.strftime("%Y-%m-%d", tm), _t.strftime("%Y-%m-%d %H:%M:%S", tm)])
+        op = r.choice(["=", "!=", ">", ">=", "<", "<=", "gt", "lte", "eq", "ne"])
+        return ("date", "modified", op, lit, "modified %s '%s'" % (op, lit))
     if k < 9:
         col = r.choice(BOOL if r.chance(1, 4) else ["is_dir", "is_file", "is_hidden", "is_empty", "user_exec", "group_write", "other_read", "other_exec", "group_read"])
         lit = r.choice(BOOL_LITS)
